@@ -104,6 +104,14 @@ Definition stale_key_trace : trace :=
 Example monitor_rejects_stale_key : snd (fst (check stale_key_trace)) = 9%N.
 Proof. vm_compute. reflexivity. Qed.
 
+(* (g) a revocation that lapses while 600000 ledgers close: the flag is false again and the
+   revoked claim is confirmed again *)
+Definition lapsed_revocation_trace : trace :=
+  (ex_hdr, tamper_last (fun _ => observe ex_hdr ex_world)
+             (model_trace ex_hdr (init_of ex_hdr) (ex_history ++ [SetRevoked 3%N 2%N 1 ex_data true; Ledger 600000 0]))).
+Example monitor_rejects_lapsed_revocation : snd (fst (check lapsed_revocation_trace)) = 10%N.
+Proof. vm_compute. reflexivity. Qed.
+
 (* the oracle hypothesis of the nonce theorem is satisfiable: a table oracle binds messages as
    soon as its signatures are pairwise different *)
 Example ex_oracle_binds : sig_binds_message (cfg_of ex_hdr).
